@@ -76,10 +76,12 @@ Record request := mkRequest {
   r_cflist : jval           (* CFList (HEXBytes, omitempty) *)
 }.
 
-(* [BadJSON]: encoding/json refuses the body already for the BasePayload (syntax error, wrong JSON kind
-   or range of a base member).  [BadMember r]: the BasePayload decodes to the base fields of [r], but
-   encoding/json refuses a member of the typed payload of that message type (wrong JSON kind, number
-   out of range).  [Body r]: encoding/json accepts everything. *)
+(* [BadJSON]: the body is not a JSON object (syntax error, array, number, string): encoding/json fills
+   nothing.  [BadMember r]: a JSON object of which encoding/json refuses one member - of the base payload
+   (TransactionID that is no uint32, SenderID that is no string, an undecodable ReceiverToken / VSExtension
+   ...) or of the typed payload of that message type (wrong JSON kind, number out of range); decoding goes
+   on after a member error, [r] holds what was filled in (the Go zero value for the refused member).
+   [Body r]: encoding/json accepts everything. *)
 Inductive body := BadJSON | BadMember (r : request) | Body (r : request).
 
 (* ---------- answer ---------- *)
@@ -202,7 +204,11 @@ Definition join_pipeline (sender receiver : list N) (t : treq) (dk : devkeys)
   pdo netid <- lift (unmarshal_text 3 sender);
   pdo _ <- lift (unmarshal_text 8 receiver);           (* ReceiverID must be an EUI64 text ... *)
   (* ... but (after the fix) the JoinEUI of the join-request frame is the one used *)
-  pdo jd <- match pl p with PLJoinRequest je _ dn => POk (je, dn) | _ => POther end;
+  (* (after the second repair) the DevEUI member must be the DevEUI of the frame *)
+  pdo jd <- match pl p with
+            | PLJoinRequest je de dn => if bytes_eqb de (t_deveui t) then POk (je, dn) else POther
+            | _ => POther
+            end;
   let '(joineui, devnonce) := jd in
   pdo ok <- lift (validate_up_join_mic (dk_nwkkey dk) p);
   if negb ok then PMic else
@@ -229,8 +235,8 @@ Definition rejoin_pipeline (sender receiver : list N) (t : treq) (dk : devkeys)
   pdo rid <- lift (unmarshal_text 8 receiver);
   (* type 0 / 2 frames carry no JoinEUI: ReceiverID; type 1 (after the fix): the JoinEUI of the frame *)
   pdo tn <- match pl p with
-            | PLRejoin02 ty _ _ rc => POk (ty, rid, rc)
-            | PLRejoin1 ty je _ rc => POk (ty, je, rc)
+            | PLRejoin02 ty _ de rc => if bytes_eqb de (t_deveui t) then POk (ty, rid, rc) else POther
+            | PLRejoin1 ty je de rc => if bytes_eqb de (t_deveui t) then POk (ty, je, rc) else POther
             | _ => POther
             end;
   let '(jointype, joineui, devnonce) := tn in
@@ -315,24 +321,21 @@ Definition handle_homens (cfg : config) (r : request) : answer :=
   | _ => APanic
   end.
 
-(* json.Unmarshal into the typed payload fails inside encoding/json: mirrored error of the served type *)
-Definition member_error (r : request) : answer :=
-  match base_decode r with
-  | Ok _ =>
-    let err mt hn := AMsg 400 mt (r_receiver r) (r_sender r) (r_txid r) ROther [] None no_keys hn in
-    if bytes_eqb (r_mtype r) s_JoinReq then err MJoinAns None
-    else if bytes_eqb (r_mtype r) s_RejoinReq then err MRejoinAns None
-    else if bytes_eqb (r_mtype r) s_HomeNSReq then err MHomeNSAns (Some (zero_bytes 3))
-    else ABare 400 ROther
-  | Err => ABare 400 ROther
-  | _ => APanic
-  end.
+(* a member of the base payload or of the typed payload could not be decoded: the error answer of the
+   message type the request asks for, mirroring what was decoded (after the repairs 246a02c and its
+   sibling for base members); the bare error only when the message type is not served *)
+Definition error_answer (r : request) : answer :=
+  let err mt hn := AMsg 400 mt (r_receiver r) (r_sender r) (r_txid r) ROther [] None no_keys hn in
+  if bytes_eqb (r_mtype r) s_JoinReq then err MJoinAns None
+  else if bytes_eqb (r_mtype r) s_RejoinReq then err MRejoinAns None
+  else if bytes_eqb (r_mtype r) s_HomeNSReq then err MHomeNSAns (Some (zero_bytes 3))
+  else ABare 400 ROther.
 
 (* ServeHTTP *)
 Definition handle (cfg : config) (b : body) : answer :=
   match b with
   | BadJSON => ABare 400 ROther
-  | BadMember r => member_error r
+  | BadMember r => error_answer r
   | Body r =>
     match base_decode r with
     | Ok _ =>
@@ -340,7 +343,7 @@ Definition handle (cfg : config) (b : body) : answer :=
       else if bytes_eqb (r_mtype r) s_RejoinReq then handle_activation MRejoinAns rejoin_pipeline cfg r
       else if bytes_eqb (r_mtype r) s_HomeNSReq then handle_homens cfg r
       else ABare 400 ROther
-    | Err => ABare 400 ROther
+    | Err => error_answer r         (* a base member with an UnmarshalText method (SenderToken) refuses its text *)
     | _ => APanic
     end
   end.
